@@ -84,6 +84,15 @@ def Ret(e):
     return Node("ret", "never", e=e)
 
 
+def Accept(e, vty):
+    """`accept e` / `accept` in a filtermap whose verdict type is vty = ("verdict", A, R)"""
+    return Node("verdictret", "never", which=0, e=e, vty=vty)
+
+
+def Reject(e, vty):
+    return Node("verdictret", "never", which=1, e=e, vty=vty)
+
+
 def While(c, body):
     return Node("while", "unit", c=c, body=body)
 
@@ -222,6 +231,8 @@ def src(n, ind=1):
             # `return if c {..} else {..}` is not accepted by the parser ("expected } but got 'if'"); parenthesised it is
             return f"return ({src(n.e, ind)})"
         return "return" + (f" {src(n.e, ind)}" if n.e is not None else "")
+    if k == "verdictret":
+        return ("accept" if n.which == 0 else "reject") + (f" {src(n.e, ind)}" if n.e is not None else "")
     if k == "while":
         return f"while {src(n.c, ind)} {block_src(n.body, ind)}"
     if k == "field":
@@ -294,6 +305,10 @@ def program_src(p):
     for f in p.fns:
         params = ", ".join(f"{n}: {ty_src(t)}" for n, t in f.params)
         ret = "" if f.ret == "unit" else f" -> {ty_src(f.ret)}"
+        if getattr(f, "filtermap", False):
+            # a filtermap has no written return type: it returns Verdict[A, R] of its accept / reject payloads
+            out += f"filtermap {f.name}({params}) {block_src(f.body, 0)}\n\n"
+            continue
         out += f"fn {f.name}({params}){ret} {block_src(f.body, 0)}\n\n"
     return out
 
@@ -631,6 +646,9 @@ class Ref:
             return self.host(n.name, args, n)
         if k == "ret":
             raise ReturnEx(self.ev(n.e, env, depth) if n.e is not None else None)
+        if k == "verdictret":
+            # nothing after accept / reject runs; the filtermap returns Accept(payload) / Reject(payload)
+            raise ReturnEx(EnumVal(n.vty, n.which, {n.which: [self.ev(n.e, env, depth) if n.e is not None else None]}))
         if k == "field":
             return self.ev(n.e, env, depth)[n.name]
         if k == "reclit":
